@@ -21,6 +21,7 @@ EFF_NAMES = {
     6: "forall y:T. p(y) := v", 7: "w(x) := x", 8: "n := n + d", 9: "when C: n += d", 10: "p(x) := true", 11: "u := c1",
     12: "b := true", 13: "forall y:T. when p(y): p(y) := false", 14: "when C: w(x) := o1", 15: "p(x) := false",
     16: "when C: n -= d2", 17: "n := u", 18: "u -= d", 19: "u += d", 20: "forall y:T. when p(y): b := true",
+    21: "p(w(x)) := false (nested fluent in the effect target)",
 }
 INV_NAMES = {0: "always n <= c3", 1: "always b or p(o1)"}
 TRAJ_NAMES = {0: "sometime b", 1: "at-most-once p(o1)", 2: "sometime-before b p(o1)", 3: "sometime-after p(o1) b",
@@ -97,7 +98,7 @@ def _build(ctx, sk, env=None):
     if need_st:
         g.st = Fluent(nm("st"), tm.BoolType(), environment=env, **{nm("x"): T})
         prob.add_fluent(g.st, default_initial_value=True)
-    need_w = (not minimal) or bool(_c & {10, 11}) or bool(_e & {7, 14})
+    need_w = (not minimal) or bool(_c & {10, 11}) or bool(_e & {7, 14, 21})
     need_n = (not minimal) or bool(_c & {4, 5, 9, 13, 14}) or bool(_e & {2, 3, 4, 5, 8, 9, 16, 17}) or 0 in sk.get("inv", [])
     g.has = dict(u=need_u, w=need_w, n=need_n)
     for fl, need in ((b, True), (p, True), (w, need_w), (u, need_u), (n, need_n)):
@@ -206,6 +207,8 @@ def _build(ctx, sk, env=None):
                 act.add_decrease_effect(em.FluentExp(u), em.Int(C("d")))
             elif i == 19:
                 act.add_increase_effect(em.FluentExp(u), em.Int(C("d")))
+            elif i == 21:
+                act.add_effect(em.FluentExp(p, [em.FluentExp(w, [x])]), em.FALSE())
             elif i == 20:
                 y = Variable("y", T, env)
                 act.add_effect(em.FluentExp(b), em.TRUE(), em.FluentExp(p, [em.VariableExp(y)]), forall=[y])
@@ -249,7 +252,7 @@ def _build(ctx, sk, env=None):
     if (set(sk.get("second_action") or [])) & {1, 5, 9, 14, 16}:
         conds |= {sk.get("effcond2", 0)}
     uses_b = bool(conds & {0, 1, 6, 8}) or bool(effs & {0, 1, 12, 20}) or 1 in sk.get("inv", []) or sk.get("fork_all")
-    uses_p = bool(conds & {2, 6, 7, 8, 11, 12}) or bool(effs & {6, 10, 13, 15, 20}) or 1 in sk.get("inv", []) or sk.get("fork_all")
+    uses_p = bool(conds & {2, 6, 7, 8, 11, 12}) or bool(effs & {6, 10, 13, 15, 20, 21}) or 1 in sk.get("inv", []) or sk.get("fork_all")
     prob.set_initial_value(em.FluentExp(b), em.Bool(bool(ctx.choice("b0", 2)) if uses_b else False))
     for o in objs:
         prob.set_initial_value(em.FluentExp(p, [em.ObjectExp(o)]), em.Bool(bool(ctx.choice(f"p0_{o.name}", 2)) if uses_p else False))
@@ -293,6 +296,9 @@ _BASE = [
     (dict(pre=[], effs=[3, 12], n_bounds="upper", goal=[0], values={"x0": -1}), [["d", "ub"]]),       # upper bound around 0, decrease by a negative constant
     (dict(pre=[], effs=[2, 12], n_bounds="lower", goal=[0], values={"x0": 1}), [["d", "lb"]]),        # lower bound around 0, increase by a negative constant
     (dict(pre=[2], effs=[12, 10], goal=[0, 12]), [[]]),                                               # two goals: the second can fail alone
+    (dict(pre=[], effs=[6, 0], inv=[1], goal=[0]), [[]]),                                             # a FORALL effect writes a fluent the invariant reads
+    (dict(pre=[], effs=[13, 0], inv=[1], goal=[1]), [[]]),
+    (dict(pre=[], effs=[21, 0], inv=[1], goal=[1], w_init="any"), [[]]),                              # nested-fluent effect target under an invariant
     (dict(pre=[], effs=[5, 2], effcond=0, goal=[0]), [["c2", "d"]]),                                 # conditional assignment + increase on one fluent
     (dict(pre=[12], effs=[17, 12], goal=[0]), [["x0"]]),                                             # effect value reads an undefined fluent
     (dict(pre=[], effs=[5, 16, 0], effcond=4, n_bounds="both", goal=[1]), [["x0", "c2"], ["x0", "c"], ["d2", "lb"]]),  # conditional assign + decrease
